@@ -84,7 +84,7 @@ def gen_single(rng, quick):
         t = hcm.make_in_class(rng, s)
         if t is not None and rng.random() < 0.5:
             seqs.append(t)
-    for _ in range(60 if quick else 800):
+    for _ in range(60 if quick else (800 if common.NCPU >= 8 else 300)):
         seqs.append(nested(rng))
     return seqs
 
@@ -121,7 +121,7 @@ def run(res):
     seqs = uniq(gen_single(rng, quick))
     # multi-point cases and the single-point runs of their points
     multi = []
-    for _ in range(140 if quick else 1500):
+    for _ in range(140 if quick else (1500 if common.NCPU >= 8 else 500)):
         base = hcm.random_seq(rng, 12) if rng.random() < 0.8 else nested(rng)
         c0 = rng.choice([1, 1, 2, 3])
         cs = [c0] + [rng.randint(1, 4) for _ in range(rng.randint(1, 3))]
@@ -208,7 +208,7 @@ def run(res):
     # ---------------- mirror relation on the implementation alone (injected law)
     pick = [s for s in seqs if len(s) <= 25]
     rng.shuffle(pick)
-    pick = pick[:250 if quick else 3000]
+    pick = pick[:250 if quick else (3000 if common.NCPU >= 8 else 1000)]
     for s, o in zip(pick, hcm.pmap(hcm._w_pair, pick)):
         if o[0] != 'ok':
             continue
@@ -221,7 +221,7 @@ def run(res):
     res.cov.setdefault('timing_s', []).append(round(time.time() - res.t0, 1))
     # ---------------- (b) real binned laws: model with the recorded tables, 1e-12; mirror relation
     real = []
-    for _ in range(90 if quick else 900):
+    for _ in range(90 if quick else (900 if common.NCPU >= 8 else 300)):
         s = hcm.random_seq(rng, 12) if rng.random() < 0.8 else nested(rng)
         m = max(abs(x) for x in s)
         f = rng.choice([1, 5, 20]) if m * 20 <= 600 else (5 if m * 5 <= 600 else 1)
@@ -246,7 +246,7 @@ def run(res):
         res.violation(WHAT_ROWS, sequence=s, points=1, law='Binned(%s)' % kind)
     res.cov['real_law_runs'] = len(rterms)
     res.cov['real_law_runs_rejected_by_the_law'] = n_exc
-    rp = real[:40 if quick else 400]
+    rp = real[:40 if quick else (400 if common.NCPU >= 8 else 120)]
     for (s, kind), o in zip(rp, hcm.pmap(hcm._w_real_pair, rp, chunksize=2)):
         if o[0] != 'ok':
             continue
